@@ -19,6 +19,13 @@ theorem gen_inv_body : invBodyKey = bodyName ∧ invBodyDefname = bodyName := by
 theorem gen_inv_def : invDefKeyPrefix = toplevelPrefix ∧ invDefDefnamePrefix = toplevelPrefix := by decide
 theorem gen_disabled_bypasses : disabledBypassesBackend = true := by decide
 theorem gen_cache_id : cacheIdIsModuleName = true := by decide
+/-- `write_inline_def` hands its `buffered` flag to the cache decorator (repaired by /repo ec9a6d2) -/
+theorem gen_inline_passes_buffered : inlinePassesBuffered = true := by decide
+/-- mako's Beaker implementation overrides `CacheImpl.set` (repaired by /repo b9a6f20): the contract `set`/`get` of the
+    abstract back end is the one its own implementation has -/
+theorem gen_beaker_defines_set : beakerImplDefinesSet = true := by decide
+/-- the rendering context is added to a copy, never to the `_def_regions` entry itself (the model's `addCtx` is pure) -/
+theorem gen_context_added_to_copy : contextAddedToCopy = true ∧ contextGuard = "context and self.impl.pass_context" := by decide
 theorem gen_names :
     bodyName = "render_body".toList ∧ toplevelPrefix = "render_".toList ∧ anonPrefix = "__M_anon_".toList ∧
     cacheKeyAttr = "cache_key".toList ∧ cachePrefix = "cache_".toList ∧ timeoutKey = "timeout".toList ∧
